@@ -34,7 +34,7 @@ MANIFEST = dict(
     technique="Coq proof from convert_to soundness + exhaustive unit-pair correspondence by vm_compute",
 )
 
-THEOREMS = ["C04_unit", "C04_back", "C04_via"]
+THEOREMS = ["C04_unit", "C04_text", "C04_back", "C04_via"]
 REL = 1e-12
 
 
@@ -63,7 +63,7 @@ def check_conv(tbl, v, ua, ub, ob, want_flag=None):
 
 def run(chk):
     binary, tbl = qtylib.session()
-    proved = chk.prove("Props.C04", THEOREMS, ["theories/Props/C04.vo", "theories/Qty/Prelude.vo"],
+    proved = chk.prove("Props.C04", THEOREMS, ["theories/Props/C04.vo", "theories/Qty/Prelude.vo", "theories/Qty/DisplayExec.vo", "theories/Qty/PreludeF.vo"],
                        extra_obligations=["Qty.Prelude.prelude_wf", "Qty.Prelude.prelude_exact_int",
                                           "Qty.Prelude.prelude_exact_pos"])
     chk.trusted += [
@@ -183,11 +183,11 @@ def run(chk):
         qa = qtylib.rpn_q(qtylib.f2bits(v), ua)
         line = "R %s %s convto %s convto" % (qa, qtylib.rpn_q(qtylib.f2bits(tv1), u1), qtylib.rpn_q(qtylib.f2bits(tv2), u2))
         model = lambda ob, v=v, ua=ua, tv1=tv1, u1=u1, tv2=tv2, u2=u2: (
-            "r_vmconv2 PX_env prelude_n_exact %s %s %s %s %s" % (
+            "r_vmconv2_text PX_env prelude_n_exact %s %s %s %s %s" % (
                 qtylib.coq_Q(abs(Fraction(ob.value)) * Fraction(2 * REL)), qtylib.coq_Q(Fraction(ob.value)),
                 tbl.coq_q(qtylib.f2bits(v), ua), tbl.coq_q(qtylib.f2bits(tv1), u1), tbl.coq_q(qtylib.f2bits(tv2), u2)))
         add("chain", line, lambda ob, a=(v, ua, tv1, u1, tv2, u2): chain_check(ob, *a), model,
-            dict(v=v, ua=qtylib.show_unit(ua), ub=qtylib.show_unit(u2), via=qtylib.show_unit(u1), tv1=tv1, tv2=tv2))
+            dict(text=True, v=v, ua=qtylib.show_unit(ua), ub=qtylib.show_unit(u2), via=qtylib.show_unit(u1), tv1=tv1, tv2=tv2))
         # the same chain through the interpreter
         sa, s1, s2 = (qtylib.spell_unit(tbl, x, rng) for x in (ua, u1, u2))
         if sa and s1 and s2 and rng.random() < 0.5:
@@ -246,7 +246,7 @@ def run(chk):
         ob = obs[n]
         if c["model"] is None or ob.kind != "Q" or not ob.finite():
             continue
-        items.append((c["model"](ob), ob.expected_model_string()
+        items.append((c["model"](ob), ob.expected_model_string() + ("|" + qtylib.display_shape_of(ob.display) if c["meta"].get("text") else "")
                       if tbl.exact_unit(ob.unit) and tbl.exact_unit(qtylib.parse_unit(c["meta"]["ua"]))
                       and tbl.exact_unit(qtylib.parse_unit(c["meta"].get("via", "-"))) else "OOS"))
         idx.append(n)
